@@ -469,7 +469,9 @@ def imports_stylesheet(rng):
         if rng.random() < 0.5:
             rid += 1
             templates.append({"rid": rid, "hasMatch": False, "match": NONE, "name": "nt", "mode": "", "hasPrio": False, "prio": z, "params": [],
-                              "body": [tag("<nt%d>" % mid)], "mod": mid})
+                              # xsl:call-template does not change the current template rule (5.6): apply-imports in the called template
+                              # continues from the CALLING rule, in the caller's mode
+                              "body": [tag("<nt%d>" % mid)] + ([{"i": "apply-imports"}, tag("</nt>")] if rng.random() < 0.4 else []), "mod": mid})
     if not any(t["name"] == "nt" for t in templates):
         rid += 1
         templates.append({"rid": rid, "hasMatch": False, "match": NONE, "name": "nt", "mode": "", "hasPrio": False, "prio": z, "params": [],
